@@ -130,6 +130,16 @@ class AccessMixin(object):
     if owner is not None:
       yield st, self.load_field(st, base.t, cls, attr)
       return
+    # an assumed (extern) contract on a class overrides repository members further up the MRO
+    for c in self.mro(cls):
+      if ('%s.%s' % (c, attr)) in self.reg.externs:
+        yield st, VBound('extern', '%s.%s' % (c, attr), recv=base)
+        return
+      cn, cm = self.class_node(c)
+      if cn is not None and any(isinstance(n, (ast.FunctionDef, ast.ClassDef)) and n.name == attr or
+                                (isinstance(n, ast.Assign) and any(isinstance(t, ast.Name) and t.id == attr for t in n.targets))
+                                for n in cn.body):
+        break
     member, mod, mowner = self.find_member(cls, attr)
     if member is not None:
       if isinstance(member, ast.FunctionDef):
